@@ -118,10 +118,11 @@ theorem load_last (spills : Tensor → Bool) (pre : List Op) (op : Op) (d : Disk
 /-- **Web mode is a single self-contained file.** -/
 theorem web_self_contained (m : Model) (d : Disk) :
     (exportWeb m d).side = none ∧
-    (∀ e off len, (exportWeb m d).main = some mf → e ∈ mf.entries → e.stored ≠ .ext off len) ∧
+    (∀ (mf : MainFile) (e : Entry) (off len : Nat),
+      (exportWeb m d).main = some mf → e ∈ mf.entries → e.stored ≠ .ext off len) ∧
     (∀ anySide, load ⟨(exportWeb m d).main, anySide⟩ = some m) := by
   refine ⟨rfl, ?_, ?_⟩
-  · intro e off len hmf he
+  · intro mf e off len hmf he
     simp only [exportWeb, Option.some.injEq] at hmf
     subst hmf
     exact inlineAll_no_ext _ e off len he
